@@ -47,6 +47,16 @@
 (*    evaluation differ), every f32 operation whose exact result is not    *)
 (*    representable or not a normal number (WGSL allows extra precision,   *)
 (*    fusing and flushing), f32 division by zero, comparisons on NaN.      *)
+(* R6 (WebGPU "validating GPUProgrammableStage": a value is demanded for   *)
+(*    every *statically used* override without default; WGSL static       *)
+(*    access reaches an override through function bodies, through the      *)
+(*    initialisers of the module-scope variables and overrides they use,   *)
+(*    and through @workgroup_size): pipeline creation must fail when an    *)
+(*    error (missing value, unconvertible number, erroneous operator) is   *)
+(*    reached by evaluating something the pipeline uses.  For an override  *)
+(*    nothing uses - WebGPU demands no value, the pinned naga reports the  *)
+(*    missing value anyway - both behaviours are accepted; likewise for    *)
+(*    a default that is not evaluated because its override is supplied.    *)
 (* R5 A supplied value replaces the initialiser for the override itself    *)
 (*    and for everything derived from it (other overrides, global          *)
 (*    variable initialisers, workgroup sizes, expressions in functions).   *)
@@ -290,9 +300,11 @@ Resolve(ds, ce, K) == [i \in 1 .. Len(ds) |-> Res(ds, ce, K, i, Fuel0(ds))]
 \* an expression outside the declarations (global initialiser, workgroup size, expression in a function body)
 Derived(ds, ce, K, e) == EvalOX(ds, ce, K, e, 0, Fuel0(ds))
 
-\* pipeline creation must fail / may fail
-ErrRequired(ds, ce, K) == \E i \in 1 .. Len(ds) : Resolve(ds, ce, K)[i].st = "err"
-ErrOk(ds, ce, K) == InvalidKeys(ds, K) # {} \/ \E i \in 1 .. Len(ds) : Resolve(ds, ce, K)[i].st # "val"
+\* R6: pipeline creation must fail / may fail.  roots: the resolved values of what the pipeline uses (overrides named by a
+\* function the entry point runs, initialisers of the module-scope variables it uses, the workgroup size); the defaults they
+\* are derived from are reached by evaluating them.  An error confined to overrides nothing uses may be reported or not.
+ErrRequiredOf(roots) == \E x \in roots : x.st = "err"
+ErrAcceptableOf(all) == \E x \in all : x.st # "val"
 
 (***************************************************************************)
 (* Meaning of the module under K: the WGSL program in which every override *)
